@@ -108,7 +108,7 @@ impl Workspace {
             ("NO_COLOR", "1"),
             ("RUST_BACKTRACE", "0"),
         ];
-        let o = run_cmd("taskset", &args, &self.proj, &env, Duration::from_secs(240));
+        let o = run_cmd("taskset", &args, &self.proj, &env, Duration::from_secs(150));
         if o.timed_out {
             return Err("timeout".into());
         }
@@ -265,6 +265,18 @@ fn check_bounds(t: &g::Test, out: &str, kf_hits: &mut u32, draws: &mut u64) -> R
     Ok(())
 }
 
+/// Scheduling-dependent failures are flaky by nature: the shrinker may not
+/// see them again, so the first sighting is written out in full.
+fn fail_saved(sig: &str, message: String, input: Value) -> Outcome {
+    let dir = format!("{}/replays/C32", vcore::run::out_root());
+    let _ = std::fs::create_dir_all(&dir);
+    let h = hash_str(&format!("{sig}|{message}"));
+    let path = format!("{dir}/first-sighting-{h:016x}.json");
+    let body = json!({"property": "C32", "signature": sig, "message": message, "input": input});
+    let _ = std::fs::write(&path, serde_json::to_string_pretty(&body).unwrap_or_default());
+    Outcome::fail(sig, format!("{message}\n(first sighting saved: {path})"), input)
+}
+
 pub struct CliOpts {
     pub thorough: bool,
     pub total_cpus: u32,
@@ -388,8 +400,9 @@ pub fn case(d: &mut Draw, opts: &CliOpts) -> Outcome {
                 } else {
                     format!("{:?}/{:?} vs {:?}/{:?}", a.status, a.message, b.status, b.message)
                 };
-                return Outcome::fail(
-                    format!("sched-dependent:{}", f.join("+")),
+                let sig = format!("sched-dependent:{}", f.join("+"));
+                return fail_saved(
+                    &sig,
                     format!(
                         "test {name}: {} differ(s) between\n  [{}] {}   (timings: {:?})\n  [{}] {}   (timings: {:?})\n{what}\nrepetitions: {}",
                         f.join("+"),
@@ -534,4 +547,61 @@ pub fn dump(dir: &Path, d: &mut Draw) {
     for (rel, text) in g::files(&p) {
         write_file(&dir.join(rel), &text);
     }
+}
+
+/// A hand-written project (payload: files, seed, draws: tag → {test, width,
+/// signed, lo, hi, signature}) run once; every tagged line `#<tag> <hex> …`
+/// of the named test must lie within [lo, hi], else the tag's signature is
+/// reported.  Used for the reproducers of listed findings.
+pub fn fixed_case(payload: &Value) -> Outcome {
+    let Some(files) = payload.get("files").and_then(|f| f.as_array()) else {
+        return Outcome::skip("cli-fixed: payload without files");
+    };
+    let files: Vec<(String, String)> = files
+        .iter()
+        .filter_map(|f| Some((f.get("path")?.as_str()?.to_string(), f.get("text")?.as_str()?.to_string())))
+        .collect();
+    let seed = payload.get("seed").and_then(|s| s.as_u64()).unwrap_or(1);
+    let ws = Workspace::new(&files, None);
+    let total = std::thread::available_parallelism().map(|n| n.get()).unwrap_or(1) as u32;
+    let cfg = RunCfg { cpus: (0..total).collect(), timings: Timings::Remove, seed, label: "fixed".into() };
+    let rep = match ws.run(&cfg) {
+        Ok(r) => r,
+        Err(e) => return Outcome::skip(format!("cli-fixed: no report: {}", e.lines().next().unwrap_or(""))),
+    };
+    let empty = serde_json::Map::new();
+    let draws = payload.get("draws").and_then(|d| d.as_object()).unwrap_or(&empty);
+    let mut bad: BTreeMap<String, Vec<String>> = BTreeMap::new();
+    let mut checked = 0;
+    for (tag, spec) in draws {
+        let test = spec.get("test").and_then(|t| t.as_str()).unwrap_or("");
+        let width = spec.get("width").and_then(|t| t.as_u64()).unwrap_or(64) as u32;
+        let signed = spec.get("signed").and_then(|t| t.as_bool()).unwrap_or(false);
+        let lo: i128 = spec.get("lo").and_then(|t| t.as_str()).and_then(|s| s.parse().ok()).unwrap_or(i128::MIN);
+        let hi: i128 = spec.get("hi").and_then(|t| t.as_str()).and_then(|s| s.parse().ok()).unwrap_or(i128::MAX);
+        let sig = spec.get("signature").and_then(|t| t.as_str()).unwrap_or("draw-out-of-bounds");
+        let out = rep.tests.get(test).and_then(|t| t.output.clone()).unwrap_or_default();
+        let prefix = format!("#{tag} ");
+        for line in out.lines().filter(|l| l.starts_with(&prefix)) {
+            let Some(p) = line[prefix.len()..].split_whitespace().next().and_then(|h| u64::from_str_radix(h, 16).ok()) else { continue };
+            checked += 1;
+            let v = g::read(p, width, signed);
+            if v < lo || v > hi {
+                bad.entry(sig.to_string()).or_default().push(format!("{test} {line:?}: {v} outside [{lo}, {hi}]"));
+            }
+        }
+    }
+    // an unlisted signature first, so that a listed one cannot mask it
+    let listed = "range-bound-not-sign-extended";
+    if let Some((sig, lines)) = bad.iter().find(|(s, _)| s.as_str() != listed).or(bad.iter().next()) {
+        return Outcome::fail(
+            sig.clone(),
+            format!("{} draw(s) out of bounds, e.g. {}\nrun: {}", lines.len(), lines[0], ws.command_line(&cfg)),
+            json!({"lines": lines}),
+        );
+    }
+    if checked == 0 {
+        return Outcome::skip("cli-fixed: no tagged draw in the output");
+    }
+    Outcome::pass(hash_str(&payload.to_string()), true, vec!["cli-fixed/in-bounds".into()], format!("{checked} draws in bounds"))
 }
